@@ -78,6 +78,61 @@ example :
       | .error _ => none) = some (show' (canon { tab := true } .cursor id v)) := by
   decide +kernel
 
+/-- `collapse_spec`: jq's duplicate-key rule as implemented by `collapse_repeated` /
+`collapse_duplicate_fields` — *first position, last value*: the collapsed object's keys are the
+distinct keys of the input in order of first occurrence, no key repeats, and looking a key up
+yields the **last** field of the input with that key (its value and its spelling). -/
+theorem collapse_spec (fs : List (Str × V)) :
+    keysOf (collapse fs) = firstOcc (keysOf fs) ∧ (keysOf (collapse fs)).Nodup ∧
+      ∀ q, findField q (collapse fs) = lastField q fs := by
+  refine ⟨?_, nodup_collapseInto fs [] (by simp [keysOf]), ?_⟩
+  · have := keys_collapseInto fs []
+    have e : keysOf ([] : List (Str × V)) = [] := rfl
+    rw [e] at this
+    simp only [List.nil_append, List.not_mem_nil, not_false_eq_true, decide_true] at this
+    have ft : ∀ l : List Key, l.filter (fun _ => true) = l := by
+      intro l; induction l with
+      | nil => rfl
+      | cons a l ih => simp [List.filter, ih]
+    rw [ft] at this
+    exact this
+  · intro q
+    have := findField_collapseInto fs [] q
+    simp only [collapse, this, findField]
+    cases lastField q fs <;> rfl
+
+/-- non-vacuity: `{"a":1,"b":2,"a":3}` collapses to `{"a":3,"b":2}` -/
+example :
+    (collapse [(⟨['a'], false⟩, .num [0x31]), (⟨['b'], false⟩, .num [0x32]), (⟨['a'], true⟩, .num [0x33])]).map
+        (fun f => (f.1.cs, f.1.esc, render { compact := true, unit := [], ascii := false, fmt := id } 0 f.2))
+      = [(['a'], true, [0x33]), (['b'], false, [0x32])] := by
+  decide
+
+/-- `ascii_only`: with `-a` (which always selects the materialised route: `Opts.lazy` is false)
+every byte of the JSON text is below 0x80, provided the number re-spelling writes ASCII. -/
+theorem ascii_only (o : Opts) (fmt : Bytes → Bytes) (hfmt : ∀ l, asciiB (fmt l) = true) (v : V)
+    (ha : o.ascii = true) :
+    o.lazy = false ∧ ∀ b ∈ body o .mat fmt v, b.toNat < 0x80 := by
+  refine ⟨by simp [Opts.lazy, ha], ?_⟩
+  have hu : asciiB o.unit = true := by
+    apply ws_ascii
+    unfold Opts.unit
+    split
+    · decide
+    · split
+      · exact spaces_ws _
+      · split <;> decide
+  have := render_ascii (o.cfg .mat fmt) (by simp [Opts.cfg, ha]) (by simpa [Opts.cfg] using hu)
+    (by simpa [Opts.cfg] using hfmt) (o.prep .mat v) 0
+  intro b hb
+  simp only [asciiB, List.all_eq_true, decide_eq_true_eq] at this
+  exact this b hb
+
+/-- non-vacuity: U+00E9 and U+1F600 under `-a` -/
+example : body { ascii := true, compact := true } .mat id (.str ⟨['é', '😀'], false⟩)
+    = [0x22, 0x5c, 0x75, 0x30, 0x30, 0x65, 0x39, 0x5c, 0x75, 0x64, 0x38, 0x33, 0x64, 0x5c, 0x75, 0x64, 0x65, 0x30, 0x30, 0x22] := by
+  decide
+
 example : print { seq := true, compact := true } .mat id (.arr [.null]) = [0x1e, 0x5b, 0x6e, 0x75, 0x6c, 0x6c, 0x5d, 0x0a] := by
   decide
 
